@@ -75,6 +75,11 @@ func main() {
 		concd.PromiseRandom(w, vt.Rand(*seed, "promise"), *n)
 		w.Close()
 		fmt.Printf("executions=%d\n", *n)
+	case "conc/promiseseq":
+		w := vt.Create(*out)
+		concd.PromiseSeq(w, vt.Rand(*seed, "promiseseq"), *n, true)
+		w.Close()
+		fmt.Printf("sequences=%d\n", w.N)
 	case "conc/procsched":
 		concd.ReplayProc(*in, *out, *skip, time.Duration(*tmo)*time.Millisecond)
 	case "morass/faults":
